@@ -10,47 +10,47 @@
    state is serialised at that index) and, any number of events later, Snapshoter.Save() plus a replica that is not
    ahead of the snapshot restoring it and replaying the log from the snapshot's index (EvSnapInstall).  [run evs] is the world after the events, [h_cids],
    [h_tsids], [h_parts] are ghost lists of everything the master ever returned.
-   [trace_safe evs] excludes exactly the trigger of finding F7 (a snapshot installed onto a live replica that is
-   read-only while the snapshot is not; also a snapshot with a zero counter / empty table, which gob would not
-   transmit and which never arises below the wrap).  [bounded evs]: fewer than 2^32 - 3 events, so that the
-   uint32 counters do not wrap. *)
+   [bounded evs]: fewer than 2^32 - 3 events, so that the uint32 counters do not wrap; it is the only hypothesis.
+   Since fix ca0788b (SnapshotRestore decodes into a fresh State) the model's [restore_into] is plain replacement and
+   the former F7 carve-out [trace_safe] is gone.  [run_merge] is the UNREPAIRED variant (restore_merge: gob decode
+   into the live struct), kept only for the two REFUTED statements. *)
 From Coq Require Import List NArith.
 From BLB Require Import C12.Model C12.Proofs.
 Import ListNotations.
 Open Scope N_scope.
 
-(* [FULL] for ALL event sequences (registrations, partition requests, heartbeats, lookups, lost replies and retries, master leader changes, follower catch-up by replay or snapshot, restarts, fail-over to a restored instance, curator leader changes and restarts) that do not contain the F7 trigger and are shorter than the uint32 wrap, all curator ids ever returned are pairwise distinct, all tractserver ids ever returned are pairwise distinct, and all partitions ever returned are pairwise distinct *)
+(* [FULL] for ALL event sequences (registrations, partition requests, heartbeats, lookups, lost replies and retries, master leader changes, follower catch-up by replay or snapshot, restarts, fail-over to a restored instance, curator leader changes and restarts) shorter than the uint32 wrap, all curator ids ever returned are pairwise distinct, all tractserver ids ever returned are pairwise distinct, and all partitions ever returned are pairwise distinct *)
 Theorem ids_unique :
-  forall evs, trace_safe evs = true -> bounded evs ->
+  forall evs, bounded evs ->
     NoDup (h_cids (run evs)) /\ NoDup (h_tsids (run evs)) /\ NoDup (map fst (h_parts (run evs))).
 Proof. exact ids_unique_lemma. Qed.
 Print Assumptions ids_unique.
 
-(* [REFUTED] without the carve-out the statement is false on the faithful model, because SnapshotRestore decodes into the live struct and a read-only follower stays read-only, misses a registration, later leads and returns curator id 2 a second time, witness f7_trace, replayed on the real code by the harness monitor dup-curator-id, finding F7 *)
-Theorem ids_unique_refuted :
-  exists evs, bounded evs /\ ~ NoDup (h_cids (run evs)).
-Proof. exact ids_unique_refuted_lemma. Qed.
-Print Assumptions ids_unique_refuted.
+(* [REFUTED] for the unrepaired variant run_merge, where SnapshotRestore decodes into the live struct as before fix ca0788b, the statement is false because a read-only follower stays read-only after installing a snapshot, misses a registration, later leads and returns curator id 2 a second time, witness f7_trace, on which the repaired model returns 1 2 3 *)
+Theorem ids_unique_merge_refuted :
+  exists evs, bounded evs /\ ~ NoDup (h_cids (run_merge evs)).
+Proof. exact ids_unique_merge_refuted_lemma. Qed.
+Print Assumptions ids_unique_merge_refuted.
 
 (* [FULL] once partition p was returned for curator c, or once the leader's table says p belongs to c, then after ANY further events, on whichever replica leads, lookup p answers c *)
 Theorem ownership_stable :
   forall evs evs' p c,
-    trace_safe (evs ++ evs') = true -> bounded (evs ++ evs') ->
+    bounded (evs ++ evs') ->
     In (p, c) (h_parts (run evs)) \/ m_lookup (leader_st (run evs)) p = ROk c ->
     m_lookup (leader_st (run (evs ++ evs'))) p = ROk c.
 Proof. exact ownership_stable_lemma. Qed.
 Print Assumptions ownership_stable.
 
-(* [REFUTED] without the carve-out a partition handed out to curator 1 is later looked up as owned by curator 2, witness f7_trace_part, finding F7 *)
-Theorem ownership_refuted :
-  exists evs evs' p c, bounded (evs ++ evs') /\ In (p, c) (h_parts (run evs)) /\
-                       m_lookup (leader_st (run (evs ++ evs'))) p <> ROk c.
-Proof. exact ownership_refuted_lemma. Qed.
-Print Assumptions ownership_refuted.
+(* [REFUTED] for the unrepaired variant run_merge a partition handed out to curator 1 is later handed out again and looked up as owned by curator 2, witness f7_trace_part *)
+Theorem ownership_merge_refuted :
+  exists evs evs' p c, bounded (evs ++ evs') /\ In (p, c) (h_parts (run_merge evs)) /\
+                       m_lookup (leader_st (run_merge (evs ++ evs'))) p <> ROk c.
+Proof. exact ownership_merge_refuted_lemma. Qed.
+Print Assumptions ownership_merge_refuted.
 
 (* [FULL] in every reachable world the curator group's durable partition set is a subset of what the master leader's table assigns to the curator's durable id, which is then non-zero, and the log.Fatalf sanity check of heartbeatLoop has never fired *)
 Theorem curator_serves_only_assigned :
-  forall evs, trace_safe evs = true -> bounded evs ->
+  forall evs, bounded evs ->
     w_fatal (run evs) = false /\
     forall p, In p (c_parts (w_cur (run evs))) ->
               c_id (w_cur (run evs)) <> 0 /\ m_lookup (leader_st (run evs)) p = ROk (c_id (w_cur (run evs))).
@@ -60,7 +60,7 @@ Print Assumptions curator_serves_only_assigned.
 (* [FULL] after any heartbeat round in which the master answered and the reply arrived, every partition the master leader attributes to this curator's id, and every partition ever returned for that id even if the reply was lost or the receiving curator leader was replaced before committing it, is in the curator's durable set *)
 Theorem lost_assignment_recovered :
   forall evs n ps,
-    trace_safe (evs ++ [EvCHeartbeat n false]) = true -> bounded (evs ++ [EvCHeartbeat n false]) ->
+    bounded (evs ++ [EvCHeartbeat n false]) ->
     snd (c_heartbeat (run evs) n false) = Some (Some ps) ->
     let w' := run (evs ++ [EvCHeartbeat n false]) in
     c_id (w_cur w') <> 0 /\
@@ -79,8 +79,8 @@ Definition demo : list event :=
    EvCLeader 1; EvCStart 1; EvInstall 1; EvLeader 1; EvMHeartbeat 2; EvCNewPart 1 false; EvCCommitPart 1;
    EvMRegTs; EvMRegTs].
 
-Example demo_safe : trace_safe (demo ++ [EvCHeartbeat 1 false]) = true /\ bounded (demo ++ [EvCHeartbeat 1 false]).
-Proof. split; [vm_compute; reflexivity | unfold bounded; simpl; reflexivity]. Qed.
+Example demo_bounded : bounded (demo ++ [EvCHeartbeat 1 false]).
+Proof. unfold bounded; simpl; reflexivity. Qed.
 
 Example demo_before :
   let w := run demo in
@@ -100,11 +100,12 @@ Definition demo_late_save : list event :=
   [EvCmd CRegCur; EvCmd CRegCur; EvSnapTake; EvCmd (CNewPart 1); EvCmd CRegCur; EvCmd (CNewPart 2);
    EvRestart 1; EvSnapInstall 1; EvLeader 1; EvCmd CRegCur; EvCmd (CNewPart 3)].
 Example demo_late_save_ok :
-  trace_safe demo_late_save = true /\
   h_cids (run demo_late_save) = [1; 2; 3; 4] /\ h_parts (run demo_late_save) = [(1, 1); (2, 2); (3, 3)] /\
   w_snap (run demo_late_save) = Some (2%nat, replay [CRegCur; CRegCur]).
 Proof. vm_compute. repeat split; reflexivity. Qed.
 
-(* the F7 witnesses really contain the excluded trigger *)
-Example f7_witnesses_excluded : trace_safe f7_trace = false /\ trace_safe f7_trace_part = false.
-Proof. exact f7_trace_unsafe. Qed.
+(* on the F7 witnesses the repaired model hands out fresh ids / partitions, the unrepaired one duplicates *)
+Example f7_witnesses :
+  h_cids (run_merge f7_trace) = [1; 2; 2] /\ h_cids (run f7_trace) = [1; 2; 3] /\
+  h_parts (run_merge f7_trace_part) = [(1, 1); (1, 2)] /\ h_parts (run f7_trace_part) = [(1, 1); (2, 2)].
+Proof. vm_compute. repeat split; reflexivity. Qed.
